@@ -45,8 +45,10 @@ def generate(repo: pathlib.Path) -> str:
     eq = Flatten().visit(last_return(find_method(base, "Proposal", "__eq__")))
     keys = "(self_priority : Int) (self_source_id : String) (other_priority : Int) (other_source_id : String)"
     out = ["import Frequenz.Model.Prelude", "", "namespace Extracted.Proposal", ""]
-    out += [f"/-- `Proposal.__lt__`. -/\ndef lt {keys} : Prop :=\n  {tr.prop(lt, env)}\n"]
-    out += [f"/-- `Proposal.__eq__` (for two `Proposal`s). -/\ndef eq {keys} : Prop :=\n  {tr.prop(eq, env)}\n"]
+    dec = ("instance (self_priority : Int) (self_source_id : String) (other_priority : Int) (other_source_id : String) :\n"
+           "    Decidable ({n} self_priority self_source_id other_priority other_source_id) := by\n  unfold {n}; exact inferInstance\n")
+    out += [f"/-- `Proposal.__lt__`. -/\ndef lt {keys} : Prop :=\n  {tr.prop(lt, env)}\n", dec.format(n="lt")]
+    out += [f"/-- `Proposal.__eq__` (for two `Proposal`s). -/\ndef eq {keys} : Prop :=\n  {tr.prop(eq, env)}\n", dec.format(n="eq")]
     # expiry test of drop_old_proposals
     mat = ast.parse((repo / SOURCES[1]).read_text())
     drop = find_method(mat, "Matryoshka", "drop_old_proposals")
@@ -56,7 +58,8 @@ def generate(repo: pathlib.Path) -> str:
     test = Flatten().visit(tests[0])
     out += ["/-- the `if` of `drop_old_proposals`: this proposal is dropped. -/\n"
             "def expired (loop_time : Rat) (proposal_creation_time : Rat) (self__max_proposal_age_sec : Rat) : Prop :=\n"
-            f"  {tr.prop(test, env)}\n"]
+            f"  {tr.prop(test, env)}\n",
+            "instance (a b c : Rat) : Decidable (expired a b c) := by unfold expired; exact inferInstance\n"]
     # the max age the actor configures (both groups must agree)
     act = ast.parse((repo / SOURCES[2]).read_text())
     ages = []
